@@ -464,7 +464,7 @@ func c09Scripted(r *Run, sim *verifsim.Sim, kind string, ncallers, perCaller int
 
 type optSource struct{ f func() []verifsim.Option }
 
-func (o *optSource) Options(now time.Time) []verifsim.Option  { return o.f() }
+func (o *optSource) Options(now time.Time) []verifsim.Option { return o.f() }
 func (o *optSource) NextDue(now time.Time) (time.Time, bool) { return time.Time{}, false }
 
 // ---- reverse calls: service -> provider
